@@ -99,6 +99,10 @@ def run(repo, res, tier):
     res.rule("Q9-REACHED", "is_reached, evaluated: some goal state satisfied in all its constrained attributes; every test asked about the state's value of the same attribute (speed = norm, heading = atan2 for point-mass states); goal states judged independently", 60)
     res.rule("Q5-PAIRING", "heading convention atan2(velocity_y, velocity) in the state classes", 1)
     res.rule("Q6-INDEX", "goal_reached, evaluated: success exactly when a state reaches the goal, with the index of such a state", 7)
+    res.rule("Q10-READ", "a goal read from a file refers to every element the file lists (loops of the XML reader over document elements read their loop variable; shared with C01)", 20)
+    from .c01 import loop_variable_rule
+
+    loop_variable_rule(repo, res, "Q10-READ")
     res.rule("Q8-MEMBERSHIP", "the membership tests the goal check relies on: a shape group (lanelet goal) contains a point iff one of its members does; an angle interval contains an orientation modulo 2pi; a polygon contains the points of its closed vertex ring", 16)
     membership_rules(repo, res)
     eff = Effects(repo)
